@@ -1,6 +1,7 @@
 package main
 
 import (
+	"bytes"
 	"encoding/json"
 	"fmt"
 	"os"
@@ -18,7 +19,8 @@ func init() {
 type c16Case struct {
 	N       int    `json:"n"`
 	KeySeed uint64 `json:"key_seed"`
-	KeyMode int    `json:"key_mode"` // 0 decimal padded, 1 random bytes
+	KeyMode int    `json:"key_mode"` // 0 decimal padded, 1 random bytes, 2 long keys sharing a 300-byte prefix
+	Nested  bool   `json:"nested"`   // the visitor of the outer enumeration runs a whole inner enumeration (block and random) at its third delivery
 	File    bool   `json:"file_backed_flushed_evicted"`
 	Mode    string `json:"mode"`    // len | block | random
 	Mangler int    `json:"mangler"` // 0 nil, 1 identity, 2 reverse, 3 shuffle, 4 rotate
@@ -34,6 +36,9 @@ func c16Keys(c c16Case) [][]byte {
 		var k []byte
 		if c.KeyMode == 0 {
 			k = []byte(fmt.Sprintf("%06d", len(keys)*3+1))
+		} else if c.KeyMode == 2 {
+			// long keys that agree on their first 300 bytes (URL / path style)
+			k = append(bytes.Repeat([]byte("/very/long/common/prefix"), 13), []byte(fmt.Sprintf("/page-%05d", len(keys)*7+3))...)
 		} else {
 			l := 1 + r.Intn(5)
 			k = make([]byte, l)
@@ -171,10 +176,35 @@ func runC16(c c16Case) (res string) {
 		count := map[string]int{}
 		total := 0
 		var order []string
+		nestedDone := false
+		var nestedErr string
 		vis := func(i *gkvlite.Item, depth uint64) bool {
 			count[string(i.Key)]++
 			total++
 			order = append(order, string(i.Key))
+			if c.Nested && total == 3 && !nestedDone {
+				// a whole inner enumeration of the same collection (block order reversed, then random): it must
+				// itself be complete and must not disturb the outer one
+				nestedDone = true
+				for _, inner := range []string{"block", "random"} {
+					in := map[string]int{}
+					iv := func(j *gkvlite.Item, d uint64) bool { in[string(j.Key)]++; return true }
+					var e error
+					if inner == "block" {
+						e = col.VisitItemsAscendBlockEx(false, c16Mangler(2, c.KeySeed), iv)
+					} else {
+						e = col.VisitItemsRandom(iv)
+					}
+					if e != nil {
+						nestedErr = "nested " + inner + " enumeration: " + e.Error()
+					}
+					for _, k := range keys {
+						if in[string(k)] != 1 && nestedErr == "" {
+							nestedErr = fmt.Sprintf("nested %s enumeration delivered %x %d times", inner, k, in[string(k)])
+						}
+					}
+				}
+			}
 			if c.WV && c.Mode == "block" && string(i.Val) != "v"+string(i.Key) {
 				count["<bad value for "+string(i.Key)+">"]++
 			}
@@ -187,6 +217,9 @@ func runC16(c c16Case) (res string) {
 		}
 		if err != nil && c.N > 0 {
 			return "visit error: " + err.Error()
+		}
+		if nestedErr != "" {
+			return nestedErr
 		}
 		var bad []string
 		for _, k := range keys {
@@ -248,12 +281,15 @@ func checkC16(rep *Report, rng *Rng, tier string) {
 			sizes = append(sizes, k*1024+d)
 		}
 	}
-	rep.Rule = fmt.Sprintf("every collection size n in 0..%d and k*1024-%d..k*1024+%d for k<=%d; per size: Len(), VisitItemsAscendBlockEx under nil/identity/reverse/shuffle/rotate block manglers (both value modes) and VisitItemsRandom; two key sets (padded decimal, random bytes), three key orders (bytes.Compare, reversed, length-then-bytes), memory-only and flushed+re-opened (nothing cached); oracle: every key delivered exactly once and nothing else; non-trivial = n>=1, distinct = (n, mode, mangler, key set, backing)", small, around, around, maxk)
+	rep.Rule = fmt.Sprintf("every collection size n in 0..%d and k*1024-%d..k*1024+%d for k<=%d; per size: Len(), VisitItemsAscendBlockEx under nil/identity/reverse/shuffle/rotate block manglers (both value modes) and VisitItemsRandom; three key sets (padded decimal, random bytes, long keys sharing a 300-byte prefix), enumerations nested inside the visitor of another one, three key orders (bytes.Compare, reversed, length-then-bytes), memory-only and flushed+re-opened (nothing cached); oracle: every key delivered exactly once and nothing else; non-trivial = n>=1, distinct = (n, mode, mangler, key set, backing)", small, around, around, maxk)
 	hist := map[string]int{}
 	for _, n := range sizes {
 		var cases []c16Case
 		ks := rng.U64()
 		km := rng.Intn(2)
+		if n >= 2 && n <= 40 && n%5 == 3 {
+			km = 2
+		}
 		fb := rng.Chance(1, 3)
 		if n > 1500 && tier != "thorough" {
 			fb = false
@@ -268,6 +304,10 @@ func checkC16(rep *Report, rng *Rng, tier string) {
 			m := rng.Intn(5)
 			cases = append(cases, c16Case{N: n, KeySeed: ks, KeyMode: km, File: fb, Mode: "block", Mangler: m, WV: true})
 			cases = append(cases, c16Case{N: n, KeySeed: ks, KeyMode: km, File: fb, Mode: "block", Mangler: 3, WV: false})
+		}
+		if n >= 3 && n <= 64 {
+			cases = append(cases, c16Case{N: n, KeySeed: ks, KeyMode: km, File: fb, Mode: "block", Mangler: 0, WV: true, Nested: true})
+			cases = append(cases, c16Case{N: n, KeySeed: ks, KeyMode: km, File: fb, Mode: "random", Nested: true})
 		}
 		cm := rng.Intn(3) // the key order of this size's collection
 		for _, c := range cases {
